@@ -21,7 +21,7 @@ def p_arith(ctx):
 def p_parts():
     from ._bookkeeping import p_bookkeeping
     from ._generic import optional_parts
-    return [p_arith, p_bookkeeping] + optional_parts(("_encoders", "p_encoders"), ("_units", "p_units"), ("_makemeta", "p_makemeta"), ("_schematree", "p_schematree"))
+    return [p_arith, p_bookkeeping] + optional_parts(("_encoders", "p_encoders"), ("_units", "p_units"), ("_makemeta", "p_makemeta"), ("_schematree", "p_schematree"), ("_pages", "p_schema_element"))
 
 
 def run(ctx):
